@@ -755,8 +755,8 @@ fn configs(tier: Tier) -> Vec<Config> {
             add("underride", &[4], 4);
             add("room+sender", &[2, 3], 2);
             // each kind has its own arm in insert/remove/set_*: insert, disable, re-insert needs depth 3
-            add("room", &[2], 3);
-            add("sender", &[3], 3);
+            add("room", &[2], 4);
+            add("sender", &[3], 4);
         }
         Tier::Thorough => {
             add("override+content+underride", &[0, 1, 4], 5);
